@@ -155,8 +155,22 @@ class App:
         return H
 
 
+class LeasePub:
+    """the server application's lease publisher: the script decides when a lease is granted"""
+
+    def __init__(self):
+        self.subscriber = None
+
+    def subscribe(self, subscriber):
+        self.subscriber = subscriber
+
+    def grant(self, n, ttl_ms=3600000):
+        from rsocket.lease import DefinedLease
+        self.subscriber.on_next(DefinedLease(maximum_request_count=n, maximum_lease_time=timedelta(milliseconds=ttl_ms)))
+
+
 class Net:
-    def __init__(self, lenreq, frag_client=None, frag_server=None):
+    def __init__(self, lenreq, frag_client=None, frag_server=None, lease=False):
         from rsocket.rsocket_server import RSocketServer
         from rsocket.rsocket_client import RSocketClient
         from rsocket.helpers import single_transport_provider
@@ -169,13 +183,14 @@ class Net:
         self.apps = {'client': App(self, 'client'), 'server': App(self, 'server')}
         self.chunks = {'client': [], 'server': []}      # what was delivered TO that side, in order
         box = {}
+        self.lease = LeasePub() if lease else None
 
         def mk():
             box['s'] = RSocketServer(self.ts, handler_factory=self.apps['server'].handler_class(),
-                                     fragment_size_bytes=frag_server)
+                                     fragment_size_bytes=frag_server, lease_publisher=self.lease)
             box['c'] = RSocketClient(single_transport_provider(self.tc), handler_factory=self.apps['client'].handler_class(),
                                      fragment_size_bytes=frag_client, keep_alive_period=timedelta(seconds=100000),
-                                     max_lifetime_period=timedelta(seconds=500000))
+                                     max_lifetime_period=timedelta(seconds=500000), honor_lease=lease)
             asyncio.create_task(box['c'].connect())
         self.loop.run(mk)
         self.loop.settle()
